@@ -3,14 +3,10 @@ DAG syntax as for `celldag` (Drv/Cell.lean); cells are evaluated once each into 
 import TonVerif.Drv.Common
 import TonVerif.Drv.Cell
 import TonVerif.Model.Proof
+import TonVerif.Drv.PCell
 
 namespace TonVerif.Drv
 open TonVerif TonVerif.Model
-
-def evalPDag (nodes : List (Int × Bits × List Nat)) : Array (Option PCell) :=
-  nodes.foldl (fun acc (kind, bits, refs) =>
-    let kids : Option (List PCell) := refs.mapM (fun i => (acc[i]?).join)
-    acc.push (kids.bind (fun ks => (construct sha kind bits (ks.map PCell.info)).map (fun i => PCell.mk i ks)))) #[]
 
 def parsePDag (arg : String) : Option (Array (Option PCell)) :=
   ((arg.splitOn "|").mapM parseNode).map evalPDag
